@@ -230,6 +230,7 @@ func (vc *VC) callCommon(st *State, v *ssa.Call, cc *ssa.CallCommon, args []Term
 			for i, f := range callee.FreeVars {
 				if i < len(mc.Bindings) {
 					env["&"+f.Name()] = vc.val(mc.Bindings[i])
+					env[fmt.Sprintf("&#%d", i)] = vc.val(mc.Bindings[i])
 				}
 			}
 			vc.applyContractEnv(st, v, spec, names, args, callee.Signature, guard, pos, label, vc.pkgOf(callee), env, false)
